@@ -115,7 +115,7 @@ func randAddr(rng *rand.Rand) addr {
 // ---- A: grouping -------------------------------------------------------------------------------
 
 type pairObs struct {
-	firstBlocked, secondBlocked, repeatBlocked bool
+	firstBlocked, secondBlocked, repeatBlocked, secondRepeatBlocked bool
 }
 
 func groupingProbe(t *testing.T, x, y string) (o pairObs) {
@@ -124,7 +124,8 @@ func groupingProbe(t *testing.T, x, y string) (o pairObs) {
 		o.firstBlocked = q.Blocked(x)
 		o.secondBlocked = q.Blocked(y)
 		time.Sleep(time.Second)
-		o.repeatBlocked = q.Blocked(x) // one token per ~11.5 days: still empty
+		o.repeatBlocked = q.Blocked(x)       // one token per ~11.5 days: still empty
+		o.secondRepeatBlocked = q.Blocked(y) // same for y, whichever bucket it is in
 	})
 	return
 }
@@ -240,6 +241,45 @@ func genLimCase(rng *rand.Rand, long bool) limCase {
 	return c
 }
 
+// genRamp: a steady trickle for 2.5 windows (entries expire, the ring's head advances and
+// wraps), then arrivals accelerate so that the live population grows through several ring
+// resizes in wrapped state until the budget is crossed: the exact event at which the limiter
+// closes depends on every live entry having survived the resizes.
+func genRamp(rng *rand.Rand) limCase {
+	c := limCase{Window: []time.Duration{100 * time.Millisecond, 250 * time.Millisecond, time.Second, 7 * time.Second}[rng.Intn(4)], Shape: "ramp"}
+	budget := 20 + rng.Intn(600)
+	if rng.Intn(20) == 0 {
+		budget = 1000 + rng.Intn(2000)
+	}
+	c.PPS = int(int64(budget) * int64(time.Second) / int64(c.Window))
+	if c.PPS < 1 {
+		c.PPS = 1
+	}
+	budget = int(int64(c.PPS) * int64(c.Window) / int64(time.Second))
+	size := 1 + rng.Intn(200)
+	switch rng.Intn(3) {
+	case 0:
+		c.BPS = -1
+	case 1:
+		c.BPS = c.PPS * size * 2 // bytes never the limiting dimension
+	default:
+		c.BPS, c.PPS = c.PPS*size*3/4, c.PPS*2 // bytes cross first
+	}
+	quarter := max(budget/4, 2)
+	gap := float64(c.Window) / float64(quarter)
+	n1 := quarter*5/2 + rng.Intn(quarter)
+	for i := 0; i < n1+8*budget+50; i++ {
+		g := gap * (0.9 + 0.2*rng.Float64())
+		if i >= n1 {
+			gap *= 0.97
+			g = gap
+		}
+		c.Gaps = append(c.Gaps, time.Duration(g))
+		c.Sizes = append(c.Sizes, size)
+	}
+	return c
+}
+
 func runLimiter(t *testing.T, c limCase) (got []bool, ev []event, isNil bool) {
 	synctest.Test(t, func(t *testing.T) {
 		l := packetlimiter.New(c.PPS, c.BPS, c.Window)
@@ -337,22 +377,24 @@ func TestC34(t *testing.T) {
 		r.Distinct("A/" + tx + "|" + ty)
 		kinds[kx+" vs "+ky]++
 		w := map[string]any{"first": tx, "second": ty, "first_kind": kx, "second_kind": ky, "reference_group_first": p.x.group(), "reference_group_second": p.y.group(),
-			"first_blocked": o.firstBlocked, "second_blocked": o.secondBlocked, "first_again_after_1s_blocked": o.repeatBlocked}
-		zoned := p.x.zone != "" || p.y.zone != ""
+			"first_blocked": o.firstBlocked, "second_blocked": o.secondBlocked, "first_again_after_1s_blocked": o.repeatBlocked, "second_again_blocked": o.secondRepeatBlocked}
 		switch {
 		case o.firstBlocked:
 			r.Violation("quota-fresh-group-blocked", "the first event of a fresh group was blocked with burst 1", w)
-		case !o.repeatBlocked:
+		case !o.repeatBlocked || !o.secondRepeatBlocked:
+			// an address that is not limited at all (it has no bucket)
+			who, z := tx, p.x.zone
+			if o.repeatBlocked {
+				who, z = ty, p.y.zone
+			}
 			sig := "quota-address-not-limited"
-			if p.x.zone != "" {
+			if z != "" {
 				sig = "quota-zoned-ipv6-address-not-limited"
 			}
-			r.Violation(sig, fmt.Sprintf("%s was allowed a second event 1 s after its first with burst 1 and rate 1e-6/s", tx), w)
+			r.Violation(sig, fmt.Sprintf("%s was allowed a second event 1 s after its first with burst 1 and rate 1e-6/s", who), w)
 		case same && !o.secondBlocked:
 			sig := "quota-same-group-not-sharing-bucket"
 			switch {
-			case zoned:
-				sig = "quota-zoned-ipv6-address-not-limited"
 			case p.x.is4 != p.y.is4 || strings.Contains(kx+ky, "mapped"):
 				sig = "quota-v4-and-mapped-form-not-sharing-bucket"
 			case p.x.is4:
@@ -481,10 +523,16 @@ func TestC34(t *testing.T) {
 	rngC := r.Rng("limiter")
 	nC := r.N(5000, 120000)
 	nLong := r.N(40, 300)
+	nRamp := r.N(300, 4000)
 	maxLive := map[int]int{}
 	closes, boundary := 0, 0
-	for i := 0; i < nC+nLong; i++ {
-		c := genLimCase(rngC, i >= nC)
+	for i := 0; i < nC+nLong+nRamp; i++ {
+		var c limCase
+		if i >= nC+nLong {
+			c = genRamp(rngC)
+		} else {
+			c = genLimCase(rngC, i >= nC)
+		}
 		if i%97 == 0 { // disabled limiter configurations
 			c.PPS, c.BPS = []int{0, -1}[rngC.Intn(2)], []int{0, -5}[rngC.Intn(2)]
 			if rngC.Intn(2) == 0 {
@@ -537,7 +585,7 @@ func TestC34(t *testing.T) {
 					}
 					sig = fmt.Sprintf("limiter-keeps-open-although-%s-exceed-window-budget", dim)
 				}
-				if c.Shape == "long" {
+				if c.Shape != "mixed" && live > 8 {
 					sig += "-after-ring-growth"
 				}
 				w := wit(k)
